@@ -1,7 +1,7 @@
 """C15 — mem conversions: partial-output contracts and pairing structure (structural clauses D1–D3)."""
 import os, re
 from mirlib import *
-import r_effect, t_writeonly, r_surr, r_lookahead, factsbuild, scan
+import r_effect, t_writeonly, r_surr, r_lookahead, factsbuild, scan, r_kernel
 
 MANIFEST = {
     'category': 'other',
@@ -17,7 +17,13 @@ MANIFEST = {
             'the conversions are built on — utf16_valid_up_to (ensure_utf16_validity, the without-replacement forms) and '
             'convert_utf8_to_utf16_up_to_invalid (every UTF-8 -> UTF-16 form) — skip only complete valid sequences, report the end only when '
             'reached, and stop only where no valid continuation exists or the output is full (path-sensitive abstract interpretation, see '
-            'C14-D5). Exactness of the converted values (arithmetic) and stride bookkeeping are not decided here.',
+            'C14-D5); (D5, R-KERNEL/R-STRIDE) the bulk kernels behind copy_ascii_to_ascii / copy_ascii_to_basic_latin / copy_basic_latin_to_ascii '
+            '(stop at the first non-ASCII unit) and convert_latin1_to_utf16 / convert_utf16_to_latin1_lossy (unpack_latin1 / pack_latin1): every '
+            'part of the as_chunks/split_first tree is walked in buffer order before the all-clear, zipped source and destination parts are the '
+            'same part of slices cut to the same min length, each iteration hands every sub-stride of the current element to the stride '
+            'function with its own twin (or stores the current unit), the position counter advances by exactly the element width and offending '
+            'units are reported at counter + in-stride position; stride functions answer None only when passed tests cover the whole stride. '
+            'Exactness of the converted values (arithmetic, SIMD lane operations) is not decided here.',
     'note': 'Trusted: rustc MIR, mirx, rule library; the doc comments of src/mem.rs as the statement of the partial-output contract.',
     'technique': 'per-configuration effect analysis over the call graph + information-flow rule + exact interval extraction of surrogate tests',
 }
@@ -72,4 +78,5 @@ def run(rep, facts, tier):
         n = r_lookahead.run(rep, f, c, 'R-LOOKAHEAD', in_scope)
         rep.floor('R-LOOKAHEAD', 'surrogate look-ahead sites in mem/utf_8', n, 2, c)
         scan.run_specs(rep, f, c, 'R-SCAN', ['mem::utf16_valid_up_to', 'utf_8::convert_utf8_to_utf16_up_to_invalid'])
+        r_kernel.run(rep, f, c, 'R-KERNEL', ['copy', 'validate'])
     return ('other', MANIFEST['text'], [])
